@@ -41,7 +41,7 @@ pub fn prop() -> Prop {
          schema has a deprecation, a default value, or an interface implemented by >= 2 types; distinct by schema \
          text and mode.",
     )
-    .random("schemas", check, |t| if t == Tier::Quick { 60_000 } else { 500_000 }, |t| if t == Tier::Quick { 600 } else { 1000 })
+    .random("schemas", check, |t| if t == Tier::Quick { 150_000 } else { 1_500_000 }, |t| if t == Tier::Quick { 600 } else { 1000 })
     .text(check_text)
     .assumptions(&[
         "graphql-js is not installed: the expectation is a reference written from the October 2021 spec and graphql-js v16 behaviour; where graphql-js's exact output is not certain the comparison is weakened (listed in the module documentation), never guessed",
